@@ -45,6 +45,11 @@ def make_array(kind, elements, subtype="float64"):
     typ = pa.from_numpy_dtype(dt)
     for _ in range(DEPTH[kind] + 1):
         typ = pa.list_(typ)
+    if subtype == "float32":
+        # pyarrow refuses python ints beyond 2^24 for float32 (even when exactly representable): hand it floats
+        def fl(x):
+            return None if x is None else ([fl(y) for y in x] if isinstance(x, list) else float(x))
+        elements = [fl(e) for e in elements]
     return cls(pa.array(elements, type=typ))
 
 
